@@ -567,7 +567,15 @@ fn compile_reference_inputs(tx: &tir::Tx) -> Result<Vec<primitives::TransactionI
         })
         .collect::<Result<Vec<_>, Error>>()?;
 
-    Ok(refs)
+    // reference inputs are a set: the same utxo named by two reference blocks counts once
+    let mut unique = Vec::with_capacity(refs.len());
+    for input in refs {
+        if !unique.contains(&input) {
+            unique.push(input);
+        }
+    }
+
+    Ok(unique)
 }
 
 fn compile_collateral(tx: &tir::Tx) -> Result<Vec<TransactionInput>, Error> {
